@@ -1,6 +1,7 @@
 import AwModel.Store.Sqlite
 import AwModel.Store.Memory
 import AwModel.Store.Peewee
+import AwModel.Store.HbLoop
 import Driver.Proto
 /-!
 Driver area `store <backend> <op> …` (stateful). D = String (canonical JSON text of the data).
@@ -112,6 +113,11 @@ def handle (s : DrvSt) : List String → DrvSt × String
     | "sqlite", "count" => run do
         let b ← pStr; let st ← pOpt pInt; let en ← pOpt pInt
         pure (ok s (toString (Sqlite.getEventcount s.sq b st en)))
+    | "sqlite", "hbloop" => run do
+        let b ← pStr; let pt ← pInt; let l ← pList pEv
+        match Sqlite.hbLoop pt b s.sq l with
+        | .ok q => pure (ok { s with sq := q } "")
+        | .error e => pure (er e)
     | "sqlite", "dump" => run (pure (ok s (showDump (Sqlite.bucketsOf s.sq) (Sqlite.view s.sq))))
     | "sqlite", "lookup" => run do
         let b ← pStr
@@ -176,6 +182,11 @@ def handle (s : DrvSt) : List String → DrvSt × String
         let b ← pStr; let st ← pOpt pInt; let en ← pOpt pInt
         match Memory.getEventcount s.mem b st en with
         | .ok n => pure (ok s (toString n))
+        | .error e => pure (er e)
+    | "memory", "hbloop" => run do
+        let b ← pStr; let pt ← pInt; let l ← pList pEv
+        match Memory.hbLoop pt b s.mem l with
+        | .ok q => pure (ok { s with mem := q } "")
         | .error e => pure (er e)
     | "memory", "dump" => run (pure (ok s (showDump (Memory.bucketsOf s.mem) (Memory.view s.mem))))
     | "memory", "lookup" => run do
@@ -244,6 +255,11 @@ def handle (s : DrvSt) : List String → DrvSt × String
         let b ← pStr; let st ← pOpt pInt; let en ← pOpt pInt
         match Peewee.getEventcount s.pw b st en with
         | .ok n => pure (ok s (toString n))
+        | .error e => pure (er e)
+    | "peewee", "hbloop" => run do
+        let b ← pStr; let pt ← pInt; let l ← pList pEv
+        match Peewee.hbLoop pt b s.pw l with
+        | .ok q => pure (ok { s with pw := q } "")
         | .error e => pure (er e)
     | "peewee", "dump" => run (pure (ok s (showDump (Peewee.bucketsOf s.pw) (Peewee.view s.pw))))
     | "peewee", "lookup" => run do
